@@ -9,5 +9,5 @@ mkdir -p $S
 rm -rf $S/repo $S/h
 $V/bin/simgen ${REPO:-/repo} $S/repo . inprocgrpc httpgrpc internal
 mkdir -p $S/repo/simrt && cp $V/simrt/simrt.go $S/repo/simrt/
-mkdir -p $S/h && cp $V/harness/*.go $S/h/ && { echo "module verifsim"; echo; echo "go 1.26"; echo; echo "require github.com/fullstorydev/grpchan v0.0.0"; awk '/^require \(/{f=1;print;next} f&&/^\)/{f=0;print;next} f{print} /^require [^(]/{print}' ${REPO:-/repo}/go.mod; echo "replace github.com/fullstorydev/grpchan => $S/repo"; } > $S/h/go.mod && cp /repo/go.sum $S/h/go.sum
+mkdir -p $S/h && cp $V/harness/*.go $S/h/ && { echo "module verifsim"; echo; echo "go 1.26"; echo; echo "require github.com/fullstorydev/grpchan v0.0.0"; awk '/^require \(/{f=1;print;next} f&&/^\)/{f=0;print;next} f{print} /^require [^(]/{print}' ${REPO:-/repo}/go.mod; echo "replace github.com/fullstorydev/grpchan => $S/repo"; } > $S/h/go.mod && cp ${REPO:-/repo}/go.sum $S/h/go.sum
 cd $S/h && go1.26.8 test -c -trimpath -o $S/sim.test . 
